@@ -98,13 +98,20 @@ NameForms(form, h) == IF form = "ipv6" THEN {h, "[" \o h \o "]"} ELSE {h}
 (* Trust(r): the test CA is among the roots the row configures (CaPath valid, or the  *)
 (* caller's own RootCAs); otherwise the system roots apply, which do not hold it.     *)
 (* crypto/tls and crypto/x509 are trusted for the rest.                               *)
-ServerKinds == {"hostcert", "usercert", "wrongca"}
+(*   "addrcert": a certificate for the ADDRESS the host's name resolves to and nothing   *)
+(*               else, signed by the test CA.  "hostcert" names the host exactly as it   *)
+(*               is known (a DNS name only for hosts given by name - no IP SAN; the IP   *)
+(*               only for hosts given as literals), so for a host given by NAME the two  *)
+(*               differ: verifying "the name of the host being dialled" accepts hostcert *)
+(*               and refuses addrcert; for hosts given as literals they coincide.        *)
+ServerKinds == {"hostcert", "usercert", "wrongca", "addrcert"}
 HandshakeOK(r, server) ==
   LET e == TlsEffective(r)
   IN IF ~e.verify THEN TRUE
      ELSE /\ Trust(r)
           /\ \/ e.sn = "user" /\ server = "usercert"
              \/ e.sn = "host" /\ server = "hostcert"
+             \/ e.sn = "host" /\ server = "addrcert" /\ r.host # "name"
 
 --------------------------------------------------------------------------------
 (* Part 2: authentication machine *)
